@@ -919,6 +919,77 @@ def ro_session(ck, spec):
     return viol, line, exp, mode, calls
 
 
+# ---------------------------------------------------------------- a second writable open while a writer is active
+def refused_second_writer(ck, rng, idx):
+    """a writer is inside a transaction whose records exceed the staging file's buffer; another attempt to open
+    the same Data.fs for writing must be refused (LockError) WITHOUT modifying any file, and the writer's
+    transaction must commit exactly what was stored.  Returns [(sig, what, case)]"""
+    from ZODB.FileStorage import FileStorage
+    from ZODB.Connection import TransactionMetaData
+    import zc.lockfile
+    root = os.path.join(ck.tmp, 'w2-%d' % idx)
+    if os.path.exists(root):
+        shutil.rmtree(root)
+    hist = L.gen_history(rng, 'small', ntx=rng.choice([1, 2]))
+    big = rng.choice([9000, 20000, 33000])
+    case = dict(history=hist, second_writer=True, big=big)
+    out = []
+    rr = L.run_history(hist, root, keep_open=True)
+    writer = rr.fs
+    path = os.path.join(root, 'Data.fs')
+    dA, dB = L.fill(big, 17), L.fill(300, 99)
+    try:
+        md = TransactionMetaData(b'', b'second writer scenario', b'')
+        writer.tpc_begin(md)
+        writer.store(L.p64(0x6161), L.Z64, dA, '', md)
+        before = vfs.snapshot(root)
+        try:
+            other = FileStorage(path)
+            other.close()
+            out.append(('C09:second-writer-not-refused', 'a second writable open while a writer holds the database '
+                        'succeeded', case))
+        except zc.lockfile.LockError:
+            pass
+        except Exception as e:
+            out.append(('C09:second-writer-open-raised', 'a second writable open while a writer is active raised %s '
+                        'instead of LockError' % L.ename(e), case))
+        after = vfs.snapshot(root)
+        if after != before:
+            changed = sorted(k for k in set(before) | set(after) if before.get(k) != after.get(k))
+            out.append(('C09:refused-open-mutated', 'a writable open that was REFUSED (LockError, a writer is active) '
+                        'modified %s (sizes %s -> %s)' % (changed, [len(before.get(k) or b'') for k in changed],
+                                                          [len(after.get(k) or b'') for k in changed]), case))
+        writer.store(L.p64(0x6262), L.Z64, dB, '', md)
+        writer.tpc_vote(md)
+        tid = writer.tpc_finish(md)
+        bad = None
+        for o, d in ((0x6161, dA), (0x6262, dB)):
+            try:
+                if writer.load(L.p64(o), '') != (d, tid):
+                    bad = 'load(%x) does not return what was stored' % o
+            except Exception as e:
+                bad = 'load(%x) raised %s' % (o, L.ename(e))
+        writer.close()
+        with open(path, 'rb') as f:
+            final = f.read()
+        try:
+            txs = L.parse_file(final, final[:4])
+            recs = {r['oid']: r['data'] for r in txs[-1]['recs']}
+            if recs.get(0x6161) != dA or recs.get(0x6262) != dB:
+                bad = bad or 'the committed records do not hold what was stored'
+        except L.ParseError as e:
+            bad = bad or 'the data file is no longer well-formed: %s' % e
+        if bad:
+            out.append(('C09:refused-open-damaged-commit', 'after a refused second writable open the writer committed its '
+                        'transaction, but %s' % bad, case))
+    finally:
+        try:
+            writer.close()
+        except Exception:
+            pass
+    return out
+
+
 # ---------------------------------------------------------------- main
 def load_corpus():
     cases = []
@@ -941,7 +1012,7 @@ def main(argv=None):
     if ck.replay_path:
         with open(ck.replay_path) as f:
             j = json.load(f)['case']
-        if 'calls' in j:
+        if 'calls' in j or j.get('second_writer'):
             ro_specs = [j]
         else:
             runs = [('replay', j['history'], j.get('pack'))]
@@ -979,6 +1050,20 @@ def main(argv=None):
             ck.violation(sig, what, case)
         expectations.append((res['name'], res['hist'], len(all_lines), res['checks']))
         all_lines += res['lines']
+    # ---- a refused second writer modifies nothing
+    nsw = 0
+    if ck.replay_path is None:
+        nsw = 6 if not ck.thorough else 60
+    elif ro_specs and ro_specs[0].get('second_writer'):
+        nsw, ro_specs = 3, []
+    for i in range(nsw):
+        ck.case(['second-writer', i], True, None)
+        try:
+            for sig, what, case in refused_second_writer(ck, ck.rng, i):
+                ck.violation(sig, what, case)
+        except Exception as e:
+            ck.violation('C09:second-writer-scenario-raised', 'the second-writer scenario raised %s: %s'
+                         % (type(e).__name__, str(e)[:160]), dict(second_writer=True, calls=[]))
     # ---- read-only sessions
     api_lines = []
     ro_specs += [gen_ro_spec(ck.rng, i) for i in range(nro)]
